@@ -3,7 +3,7 @@ import itertools
 from fractions import Fraction
 from math import comb, factorial
 
-from .. import exact, gen, helpers
+from .. import exact, gen
 from ..core import R
 from ..exact import raw_json as J, raw_unjson as U
 
@@ -14,7 +14,7 @@ RULE = ("Cases = (function, point, order, options, precision 30..300, API). Func
         "known derivatives: products of 1..3 atoms over 1..3 variables, atoms = polynomial with small dyadic "
         "coefficients, exp(a.x), sin(a.x+b), cos(a.x+b) (|a| from 1/16 to 8), univariate 1/(x-c), 1/(x^2+c^2) with the "
         "point at distance >= 1 from every pole, and sin(a x)/x at 0 with singular=True. Points: Python int/float/"
-        "complex, mpf (small dyadic up to 127, p-bit non-dyadic below 8, tiny, zero) and mpc; for relative=True also |x| = 2^(+-20..150). "
+        "complex, mpf (small dyadic up to 127, p-bit non-dyadic below 8, tiny, zero) and mpc; for relative=True |x| = 2^(+-20..150) and the function is an exactly rescaled g(x/2^e). "
         "Orders 0..10 (partial: order tuples of total <= 6). Options per the diff docstring: h (2^-4 down to "
         "2^-(p+addprec)), direction (+-1, complex), singular, addprec, relative, method='quad' with radius. The "
         "function handed to mpmath is a closure over the repository's own exp/sin/cos and arithmetic. "
@@ -50,8 +50,8 @@ PRECS = [30, 31, 32, 33, 40, 53, 53, 53, 64, 65, 80, 100, 113, 128, 150, 200, 25
 
 def shards(tier):
     m = 1 if tier == "quick" else 30
-    return [("diff", 420 * m)] * 5 + [("quad", 140 * m)] * 2 + [("partial", 170 * m)] * 2 + \
-           [("diffs", 170 * m)] * 3 + [("difference", 900 * m)] + [("differint", 60 * m)] + [("pade", 500 * m)] * 2
+    return [("diff", 600 * m)] * 5 + [("quad", 200 * m)] * 2 + [("partial", 300 * m)] * 2 + \
+           [("diffs", 250 * m)] * 3 + [("difference", 1200 * m)] + [("differint", 80 * m)] + [("pade", 700 * m)] * 2
 
 
 # ------------------------------------------------------------------------------------------------ generators
@@ -227,7 +227,7 @@ def gen_case(d, shard, tier):
         n = _order(d)
         if d.int(0, 7) == 0:
             return _gen_relative(d, p, n, api)
-        if d.int(0, 24) == 0:
+        if d.int(0, 49) == 0:
             # removable singularity: sin(a x)/x at 0 with singular=True
             o = {"singular": True}
             if d.bool():
@@ -351,7 +351,8 @@ def gen_case(d, shard, tier):
 
 
 def _gen_relative(d, p, n, api):
-    """relative=True: |x| = 2^(+-20..150); non-polynomial atoms are scaled so that a*x stays moderate"""
+    """relative=True: |x| = 2^(+-20..150) * [1, 2); the function is g(x / 2^e) with g from the ordinary grammar, so that
+    the problem is an exactly rescaled copy of an ordinary one (all coefficients stay dyadic)"""
     e = d.choice([-1, 1]) * d.int(20, 150)
     m = d.weighted([(2, 1), (2, d.int(1, 255) | 1), (3, (1 << (p - 1)) | d.bits(p - 1) | 1)])
     raw = exact.mk(d.int(0, 1), m, e - m.bit_length() + 1)
@@ -361,10 +362,10 @@ def _gen_relative(d, p, n, api):
     for t in shape:
         if t == "poly":
             a = _poly(d, 1, 6)
+            a["terms"] = [[ex, num, sh + e * ex[0]] for ex, num, sh in a["terms"]]
         else:
             a = _atom(d, 1, t)
-            if e > 0:
-                a["a"] = [[a["a"][0][0], a["a"][0][1] + e]]
+            a["a"] = [[a["a"][0][0], a["a"][0][1] + e]]
         atoms.append(a)
     o = {"relative": True}
     if d.int(0, 3) == 0:
@@ -386,10 +387,15 @@ def _ff(e, n):
     return r
 
 
-def _atom_deriv(C, atom, nv, X, mag):
+def _atom_deriv(C, atom, nv, X, mag, box=None):
     """multi-index derivative nv of one atom at X (list of context numbers); mag: the same closed form with absolute
-    values of all terms (natural magnitude)"""
+    values of all terms (natural magnitude); mag with box = [r_i]: a bound of that magnitude on the whole box
+    |z_i - X_i| <= r_i (r_i tiny): polynomials are monotone in |x_i|, the other atoms change by a factor < 2"""
     t = atom["t"]
+    if box is not None:
+        if t == "poly":
+            return _atom_deriv(C, atom, nv, [abs(x) + r for x, r in zip(X, box)], True)
+        return 2 * _atom_deriv(C, atom, nv, X, True)
     if t == "poly":
         s = C.zero
         for exps, num, sh in atom["terms"]:
@@ -450,14 +456,14 @@ def _atom_deriv(C, atom, nv, X, mag):
     raise ValueError(t)
 
 
-def _prod_deriv(C, atoms, nv, X, mag, cache, i=0):
-    """Leibniz rule over multi-indices with exact binomial coefficients"""
+def _prod_deriv(C, atoms, nv, X, mag, cache, i=0, box=None):
+    """Leibniz rule over multi-indices with exact binomial coefficients (cache is per (X, box))"""
     nv = tuple(nv)
     key = (i, nv, mag)
     if key in cache:
         return cache[key]
     if i == len(atoms) - 1:
-        v = _atom_deriv(C, atoms[i], nv, X, mag)
+        v = _atom_deriv(C, atoms[i], nv, X, mag, box)
     else:
         v = C.zero
         for kv in itertools.product(*[range(n + 1) for n in nv]):
@@ -466,8 +472,8 @@ def _prod_deriv(C, atoms, nv, X, mag, cache, i=0):
                 b *= comb(n, k)
             akey = (i, kv, mag, "a")
             if akey not in cache:
-                cache[akey] = _atom_deriv(C, atoms[i], kv, X, mag)
-            rest = _prod_deriv(C, atoms, tuple(n - k for n, k in zip(nv, kv)), X, mag, cache, i + 1)
+                cache[akey] = _atom_deriv(C, atoms[i], kv, X, mag, box)
+            rest = _prod_deriv(C, atoms, tuple(n - k for n, k in zip(nv, kv)), X, mag, cache, i + 1, box)
             v = v + b * cache[akey] * rest
     cache[key] = v
     return v
@@ -621,6 +627,7 @@ class _Oracle:
         mr.prec = 3 * self.p + 120 + extra_prec
         self.X = [_ref_point(mr, pt) for pt in c["x"]]
         self.cache = {}
+        self.boxcache = {}
 
     def deriv(self, nv):
         return _prod_deriv(self.mr, self.atoms, nv, self.X, False, self.cache)
@@ -637,38 +644,58 @@ class _Oracle:
             h = mr.ldexp(h, int(mr.mag(self.X[0])))
         return h
 
-    def allowance(self, n, var=0, shifted=0, h=None, base=None):
-        """truncation + evaluation-rounding allowance of the documented finite difference of order n in variable var
-        (orders of the other variables from base).  The difference quotient is an average of f^(n) over the convex
-        hull of the stencil (Hermite-Genocchi), so it differs from f^(n)(x) by at most sum_j (s h)^j/j! |f^(n+j)(x)|
-        with s h the reach of the stencil, j >= 1 for one-sided / perturbed / shifted stencils and j >= 2 for the
-        symmetric one.  shifted = extra stencil shift in units of h (diffs)."""
-        mr = self.mr
-        ap = self.o.get("addprec", 10)
+    def magbox(self, nv, box):
+        key = tuple(str(r) for r in box)
+        cache = self.boxcache.setdefault(key, {})
+        return _prod_deriv(self.mr, self.atoms, nv, self.X, True, cache, 0, box)
+
+    def reaches(self, nv, shifted=0, h=None):
+        """how far the documented stencil of each differentiated variable extends from the point"""
         if h is None:
             h = self.step_h()
         h = abs(h)
-        nvars = len(self.X)
+        sing = 1 if self.o.get("singular") else 0
+        return [(n + shifted + sing) * h if (n or sing) else 0 * h for n in nv], h
 
-        def mg(k):
-            nv = list(base) if base is not None else [0] * nvars
-            nv[var] = k
-            return self.mag(nv)
+    def allowance(self, nv, shifted=0, h=None):
+        """truncation + evaluation-rounding allowance of the documented finite differences of orders nv.  Each
+        difference quotient is an average of the derivative over the convex hull of its stencil (Hermite-Genocchi),
+        so by the mean value theorem it differs from the derivative at the point by at most reach * sup |next
+        derivative| for one-sided / perturbed (singular) / shifted (diffs) stencils and reach^2 sup |second next
+        derivative| for the symmetric one; the suprema over the box of all stencils are bounded by magbox."""
+        mr = self.mr
+        ap = self.o.get("addprec", 10)
+        box, h = self.reaches(nv, shifted, h)
         onesided = bool(_dir(self.o)) or self.o.get("singular") or shifted
-        reach = (n + 1 + shifted) * h if onesided else n * h
-        # polynomial factors can vanish to high order at the point: go far enough to see their first non-zero term
-        deg = 0
-        for a in self.atoms:
-            if a["t"] == "poly":
-                deg += max(e[0][var] for e in a["terms"])
         t = mr.zero
-        if reach:
-            for j in range(1 if onesided else 2, deg + 4):
-                t = t + 2 * reach ** j / factorial(j) * mg(n + j)
-        if n:
-            workprec = (self.p + 2 * ap) * (n + 1 + (1 if shifted else 0))
-            norm = h if _dir(self.o) else 2 * h
-            t = t + mr.ldexp(mr.one, 3 - workprec + n) * mg(0) / norm ** n
+        active = [i for i, n in enumerate(nv) if n or (self.o.get("singular") and len(nv) == 1)]
+        for i in active:
+            up = list(nv)
+            if onesided:
+                up[i] += 1
+                t = t + 2 * box[i] * self.magbox(up, box)
+            elif nv[i]:
+                up[i] += 2
+                t = t + 2 * box[i] ** 2 * self.magbox(up, box)
+        # rounding: a level of order n running at precision q gets its function values with q' = (q + 2 addprec)(n+1)
+        # bits and divides their difference by norm^n, which leaves an error G 2^(-q - 2 addprec - addprec n) (times
+        # 2^n one-sided), G = size of those values.  For partial derivatives the values of a level are the (rounded)
+        # results of the level below, which runs at precision q'; the last differentiated variable is the outermost
+        # level.  Every level contributes, its error amplified by the levels above it.
+        e = -self.p
+        order = [i for i in reversed(range(len(nv))) if nv[i]]
+        inner = list(nv)
+        for i in order:
+            n = nv[i]
+            e -= 2 * ap + ap * n
+            if _dir(self.o):
+                e += n
+            if self.o.get("relative"):
+                e -= n * int(mr.mag(self.X[0]))       # norm^n is 2^(n mag(x)) times larger
+            if shifted:
+                e += n                                 # (diffs: wider stencil, binomial sum up to 2^n larger)
+            inner[i] = 0
+            t = t + mr.ldexp(self.magbox(inner, box), e + 3)
         return t
 
 
@@ -762,7 +789,6 @@ def _check_diff(c, res, mp, mr):
         res.bad("prec:leak:%s" % api, "mp.prec = %d after the call, was %d; %s" % (mp.prec, p, desc))
         mp.prec = p
     # ---- oracle
-    hq = None
     extra_prec = 0
     if "h" in o:
         hre, _ = _pt_fraction(o["h"])
@@ -772,7 +798,6 @@ def _check_diff(c, res, mp, mr):
     gref = _to_ref(mr, got)
     ex = orc.deriv(nv)
     scale = max(abs(ex), orc.mag(nv))
-    sub = "partial" if partial else method
     if method == "quad":
         r = mr.mpf(o["radius"][0]) / 2 ** o["radius"][1] if "radius" in o else mr.mpf(0.25)
         cb = _cauchy(mr, f["atoms"], orc.X[0], nv[0], r)
@@ -794,32 +819,31 @@ def _check_diff(c, res, mp, mr):
             pts = [x0 + k * hh for k in range(n + 1)]
             norm = hh
         else:
-            hh = h
             pts = [x0 + k * h for k in range(-n, n + 1, 2)]
             norm = 2 * h
         q = mr.zero
+        absum = mr.zero
         for k, z in enumerate(pts):
-            q = q + (-1) ** (n - k) * comb(n, k) * _value(mr, f["atoms"], [z])
+            fz = _value(mr, f["atoms"], [z])
+            q = q + (-1) ** (n - k) * comb(n, k) * fz
+            absum = absum + comb(n, k) * abs(fz)
         q = q / norm ** n
         ap = o.get("addprec", 10)
         workprec = (p + 2 * ap) * (n + 1)
-        rnd = mr.ldexp(mr.one, 3 - workprec + n) * orc.mag([0]) * 4 / abs(norm) ** n if n else 0
+        # rounding of the function values at the documented working precision, and of the reference itself
+        rnd = (mr.ldexp(mr.one, 4 - workprec) + mr.ldexp(mr.one, 8 - mr.prec)) * absum / abs(norm) ** n if n else 0
         b = "diff:step:h" + (":direction" if dr else "")
         _cmp(res, b, "diff(h=%s) [%s] vs the exact difference quotient" % (mr.nstr(h, 5), desc), gref, q,
              max(abs(q), orc.mag(nv)), rnd, p, mr, "step_h_err/tol")
         return
     if partial:
-        # nested finite differences: allowances of each variable's stencil
-        allow = mr.zero
-        for i, n in enumerate(nv):
-            if n:
-                # allowance of variable i's stencil with the other variables' orders applied to the magnitudes
-                allow = allow + orc.allowance(n, var=i, base=nv)
+        # nested finite differences
+        allow = orc.allowance(nv)
         b = "diff:partial" + (":direction" if _dir(o) else "") + (":singular" if o.get("singular") else "")
         _cmp(res, b, "diff(partial) [%s]" % desc, gref, ex, scale, allow, p, mr, "partial_err/tol")
         return
     n = nv[0]
-    allow = orc.allowance(n)
+    allow = orc.allowance([n])
     if o.get("relative"):
         b = "diff:relative"
     elif o.get("singular"):
@@ -875,11 +899,11 @@ def _check_diffs(c, res, mp, mr):
         elif k == 0 and not o.get("singular"):
             allow = mr.zero
         elif k == 0:
-            allow = orc.allowance(0)
+            allow = orc.allowance([0])
         else:
             # diffs takes the k-th difference of the first k+1 points of a longer stencil: centre shifted by up to
             # (B - k) h with B <= max(n+1, 1.4 k + 2)
-            allow = orc.allowance(k, shifted=max(n + 1, int(1.4 * k + 3)))
+            allow = orc.allowance([k], shifted=max(n + 1, int(1.4 * k + 3)))
         tag = "%s item %d [%s]" % (api, k, desc)
         if api.startswith("taylor"):
             fk = factorial(k)
